@@ -42,9 +42,12 @@ def status_cases():
                 depth[0] -= 1
         mp._status_from_parent = wrapped
         cx.assume(near_axiom(path.t, matching, other))
+        m0, o0 = matching.t, other.t
         r = mp._status_from_parent(path, matching, other)
         rt = B(r)
-        obls = [("C16-S/status_from_parent/is-the-status-of-the-nearest-named-ancestor-or-self", rt == near(path.t))]
+        obls = [("C16-S/status_from_parent/is-the-status-of-the-nearest-named-ancestor-or-self", rt == near(path.t)),
+                # frame: the look-up is used while the sets are still being read by the propagation of other nodes
+                ("C16-S/status_from_parent/the-given-path-sets-are-not-modified", z3.And(matching.t == m0, other.t == o0))]
         if seen:
             obls.append(("C16-S/status_from_parent/recursion-on-the-strict-prefix",
                          z3.And(P(seen[0]) == z3.Extract(path.t, 0, z3.Length(path.t) - 1), z3.Length(path.t) > 0)))
